@@ -81,6 +81,7 @@ let eval (op : string) (args : sx list) : sx list =
   | "filter_eval", [p; f] -> [A "ok"; sx_of_bool (feval frag_match (filt_of_sx p) (feature_of_sx f))]
   | "feature_filter", [p; L fs] ->
     [A "ok"; L (List.map sx_of_feature (feature_filter frag_match (filt_of_sx p) (List.map feature_of_sx fs)))]
+  | "repair", [L fs] -> [A "ok"; L (List.map sx_of_feature (repair (List.map feature_of_sx fs)))]
   | _ -> [A "unknown-op"]
 
 let () =
